@@ -484,3 +484,74 @@ class Timer:
 
     def __call__(self):
         return time.time() - self.t0
+
+
+# --------------------------------------------------------------------------
+# E2, level-synchronous parallel variant
+# --------------------------------------------------------------------------
+def bfs_levels(expand, init_key, max_depth, nproc=None, max_states=None):
+    """expand(hist) -> (Acc, [(key, hist2), ...]) runs every enabled transition
+    from the state reached by `hist` on the real code and returns successor
+    fingerprints. Frontier expansion is parallel, merging/dedup is sequential
+    and deterministic. Returns (Acc, n_states, closed, depth_reached)."""
+    seen = {init_key: ()}
+    frontier = [()]
+    total = Acc()
+    depth = 0
+    closed = False
+    while frontier:
+        if depth >= max_depth:
+            break
+
+        def shard_fn(hists):
+            acc = Acc()
+            succ = []
+            for h in hists:
+                a, s = expand(h)
+                acc.merge(a)
+                succ.extend(s)
+            acc._succ = succ
+            return acc
+
+        parts = interleave(frontier, (nproc or NPROC) * 2)
+        results = _pmap_raw(shard_fn, parts, nproc)
+        nxt = []
+        for acc in results:
+            for key, h in acc._succ:
+                if key not in seen:
+                    seen[key] = h
+                    nxt.append(h)
+            acc._succ = None
+            total.merge(acc)
+        depth += 1
+        frontier = nxt
+        if max_states is not None and len(seen) >= max_states:
+            total.counts["cap_hit"] = 1
+            break
+    else:
+        closed = True
+    if not frontier:
+        closed = True
+    total.counts["states"] = len(seen)
+    total.counts["max_depth"] = depth
+    total.counts["frontier_left"] = len(frontier)
+    return total, len(seen), closed, depth
+
+
+def _pmap_raw(fn, shards, nproc=None):
+    """Like pmap but returns the per-shard Acc objects (in shard order)."""
+    global _WORKER_FN
+    shards = list(shards)
+    nproc = min(nproc or NPROC, max(1, len(shards)))
+    if nproc <= 1 or os.environ.get("VERIF_SERIAL"):
+        return [fn(s) for s in shards]
+    _WORKER_FN = fn
+    ctx = mp.get_context("fork")
+    with ctx.Pool(nproc) as pool:
+        results = pool.map(_worker, list(enumerate(shards)), chunksize=1)
+    out = []
+    for idx, acc, err in sorted(results, key=lambda r: r[0]):
+        if err is not None:
+            raise RuntimeError(f"harness error in shard {idx}:\n{err}")
+        out.append(acc)
+    return out
